@@ -85,7 +85,17 @@ def table(fl: Flow, keep: Optional[Callable[[str, str], bool]] = None):
     # the returns partition the paths, so the nesting order of the merged conditional does not matter
     # once it is printed as a decision table
     total = fl.cprinter.show_cond(()) if not fl.returns else None
-    rets = [fl.canon(e) for e in merged_result(fl)]
+    # what is returned is printed under "something is returned at all": where every path raises instead, the folded conditional has
+    # no meaning (which arm was written last decides it), so those combinations are don't-cares
+    pr0 = fl.cprinter
+    if fl.returns and all(r.cond for r in fl.returns):
+        pr0.assume = pr0._mk("or", [pr0._bool(_cond_ast(r.cond)) for r in fl.returns])
+        if pr0.assume == ("const", True):
+            pr0.assume = None
+    try:
+        rets = [fl.canon(e) for e in merged_result(fl)]
+    finally:
+        pr0.assume = None
     effs = []
     merged = _merge_exclusive_stores(fl)
     for e, expr, cond in merged:
